@@ -375,9 +375,47 @@ var chkSerial = harness.Define("client-hooks-serial-batch",
 		return out
 	})
 
+// chkNetBatch: several network clients, each with hooks of its own, used at the same time from different goroutines (a program
+// polling several devices): what one client's hooks see must not depend on the others.
+var chkNetBatch = harness.Define("client-hooks-concurrent-clients",
+	func(t *rapid.T) batchCase {
+		var b batchCase
+		n := rapid.SampledFrom([]int{3, 8, 16}).Draw(t, "clients")
+		for i := 0; i < n; i++ {
+			c := genHook(t, []string{cli.TCP, cli.RTUNet})
+			c.CancelChunk, c.CancelBlockMs = 0, 0
+			b.Cases = append(b.Cases, c)
+		}
+		return b
+	},
+	func(b batchCase) harness.Result {
+		res := make([]harness.Result, len(b.Cases))
+		done := make(chan int, len(b.Cases))
+		start := make(chan struct{})
+		for i := range b.Cases {
+			go func(i int) {
+				<-start
+				res[i] = runHook(b.Cases[i])
+				done <- i
+			}(i)
+		}
+		close(start)
+		for range b.Cases {
+			<-done
+		}
+		out := harness.Result{NonTrivial: len(b.Cases) >= 3, Weight: int64(len(b.Cases)), Labels: []string{fmt.Sprintf("concurrent-clients:%d", len(b.Cases))}}
+		for i, r := range res {
+			if r.Err != nil {
+				return harness.Fail("%d clients used at the same time, client %d (%+v): %v", len(b.Cases), i, b.Cases[i], r.Err)
+			}
+		}
+		return out
+	})
+
 func TestRandom(t *testing.T) {
 	chkHook.Rapid(t, harness.Pick(4000, 200000))
 	chkSerial.Rapid(t, harness.Pick(3, 60))
+	chkNetBatch.Rapid(t, harness.Pick(150, 4000))
 }
 
 // TestSingleCuts: every single cut of one reply per function x network client kind, with an empty read in between.
